@@ -216,12 +216,13 @@ impl PrettyParseError {
             )
         };
         let err_string = format!(
-            "{err}\n{arrow}{position}\n{pipe}\n{pipe}{the_line}\n{pipe}{caret:>caret_offset$}\n",
+            "{err}\n{arrow}{position}\n{pipe}\n{pipe}{the_line}\n{pipe}{caret_padding}{caret}\n",
             err = err.specifics.to_string().bold().white(),
             position = position,
             the_line = target_line.s.trim_end(),
+            // Not `{caret:>width$}`: a format width is limited to u16, and lines can be longer than that.
+            caret_padding = " ".repeat(character_position),
             caret = "^".bold().red(),
-            caret_offset = character_position + 1,
             arrow = "--> ".bold().blue(),
             pipe = " |  ".bold().blue(),
         );
